@@ -21,7 +21,8 @@ def run(ck):
     impl = vlib.build_driver("refine")
     model = vlib.ocaml_model()
     rng = random.Random(ck.seed * 5231 + 11)
-    cases = [rc.tie_case(rng) for _ in range(8 if ck.tier == "quick" else 120)] + [rc.gen_history(rng, DYN) for _ in range(nh)] + [rc.conforming_case(rng) for _ in range(nconf)]
+    rng_t = random.Random(ck.seed * 5231 + 12)       # histories with rigid half turns between the caching of the normals and a pass (own stream)
+    cases = [rc.tie_case(rng) for _ in range(8 if ck.tier == "quick" else 120)] + [rc.gen_history(rng, DYN) for _ in range(nh)] + [rc.gen_history(rng_t, DYN, half_turn=True) for _ in range(20 if ck.tier == "quick" else 300)] + [rc.conforming_case(rng) for _ in range(nconf)]
     outs, crashes = vlib.run_lines_resilient([impl], [c["line"] for c in cases], timeout=900)
     for bad, info in crashes[:2]:
         ck.report(dict(input=cases[bad]["line"], error=info), oracle="refine_terminates", key="refine:crash",
